@@ -39,6 +39,7 @@ type dnode struct {
 }
 
 type dval struct {
+	blank  bool // a string scalar written as "" (the key is there, the value is empty)
 	absent bool
 	text   string    // scalar
 	fields []*dval   // struct (aligned with sub)
@@ -156,6 +157,9 @@ func (g *dgen) value(n *dnode) *dval {
 			return v
 		}
 		v.text = g.scalarText(n.typ)
+		if n.typ == "string" && r.Intn(5) == 0 {
+			v.text, v.blank = "", true
+		}
 	case "slist", "ilist":
 		for i := r.Intn(4); i > 0; i-- {
 			v.elems = append(v.elems, g.scalarText(n.typ))
@@ -194,7 +198,7 @@ func (g *dgen) value(n *dnode) *dval {
 			// a struct that must be in the document needs some content to be there
 			all := true
 			for i, s := range n.sub {
-				if !emptyVal(s, v.fields[i]) {
+				if !skipVal(s, v.fields[i]) {
 					all = false
 				}
 			}
@@ -244,7 +248,7 @@ func (g *dgen) forcedDeep(n *dnode) *dval {
 		for _, s := range n.sub {
 			v.fields = append(v.fields, g.value(s))
 		}
-		if emptyVal(n, v) {
+		if skipVal(n, v) {
 			v.fields[0] = g.forcedDeep(n.sub[0])
 		}
 		return v
@@ -304,12 +308,28 @@ func (g *dgen) forced(n *dnode) *dval {
 
 // emptyVal: nothing of the value is present in a document (recursively)
 func emptyVal(n *dnode, v *dval) bool {
-	if v.absent {
+	if v.absent || v.blank {
 		return true
 	}
 	if n.kind == "struct" {
 		for i, s := range n.sub {
 			if !emptyVal(s, v.fields[i]) {
+				return false
+			}
+		}
+		return true
+	}
+	return false
+}
+
+// skipVal: the value is not written into the document at all (a blank string IS written, as "")
+func skipVal(n *dnode, v *dval) bool {
+	if v.absent {
+		return true
+	}
+	if n.kind == "struct" {
+		for i, s := range n.sub {
+			if !skipVal(s, v.fields[i]) {
 				return false
 			}
 		}
@@ -393,7 +413,7 @@ func (w *ywriter) dataFields(nodes []*dnode, vals []*dval, ind string, first str
 	}
 	for i, n := range nodes {
 		v := vals[i]
-		if emptyVal(n, v) {
+		if skipVal(n, v) {
 			continue
 		}
 		switch n.kind {
@@ -428,7 +448,7 @@ func (w *ywriter) dataFields(nodes []*dnode, vals []*dval, ind string, first str
 			for k, key := range v.keys {
 				allEmpty := true
 				for j, s := range n.sub {
-					if !emptyVal(s, v.items[k][j]) {
+					if !skipVal(s, v.items[k][j]) {
 						allEmpty = false
 					}
 				}
@@ -582,7 +602,7 @@ func xmlDataKids(kids []*dnode, vals []*dval, ind string, r *rand.Rand) string {
 	for i, n := range kids {
 		v := vals[i]
 		var els []string
-		if !emptyVal(n, v) {
+		if !skipVal(n, v) {
 			switch n.kind {
 			case "slist":
 				for _, e := range v.elems {
@@ -986,7 +1006,7 @@ func genDoc(r *rand.Rand, xml bool) ([]*dnode, []*dval) {
 func numericScalars(nodes []*dnode, vals []*dval, out *[]*dval) {
 	for i, n := range nodes {
 		v := vals[i]
-		if emptyVal(n, v) {
+		if skipVal(n, v) {
 			continue
 		}
 		switch n.kind {
